@@ -47,7 +47,10 @@ where
     let listener_addr = resolved_addr.clone();
     let (stop_channel, stop_callback) = oneshot::channel::<()>();
     let task_handle = async_rt::task::spawn(async move {
-        let mut stop_callback = stop_callback.fuse();
+        // Shared with every handshake task spawned below: a connection that is
+        // still in its handshake must not outlive the listener (and the socket).
+        let stopped = stop_callback.shared();
+        let mut stop_callback = stopped.clone().fuse();
         loop {
             select! {
                 incoming = listener.accept().fuse() => {
@@ -55,7 +58,11 @@ where
                         let peer_addr = peer_addr.as_pathname().map(|a| a.to_owned());
                         (make_framed(raw_socket), Endpoint::Ipc(peer_addr))
                     }).map_err(|err| err.into());
-                    async_rt::task::spawn(cback(maybe_accepted));
+                    let handshake = Box::pin(cback(maybe_accepted));
+                    let stopped = stopped.clone();
+                    async_rt::task::spawn(async move {
+                        let _ = futures::future::select(handshake, stopped).await;
+                    });
                 },
                 _ = stop_callback => {
                     log::debug!("Accept task received stop signal. {:?}", listener_addr);
